@@ -24,7 +24,10 @@ type subCase struct {
 	closes []bool // one entry per Close call (1..3): true = the innermost subscriber's Close fails that time
 	n      int
 	// per message: a ack / n nack right after receiving; A ack / N nack AFTER the subscription context was cancelled;
-	// u left unsettled until after Close, then acked
+	// u left unsettled until after Close, then acked.
+	// d / e (only at the tail, reads = number of the other messages): the wrapped subscriber hands the message out DURING
+	// its Close (a graceful Close that drains what it has already fetched, one message at a time, each waiting to be
+	// settled); the consumer is still reading and acks (d) / nacks (e) it.
 	script string
 	reads  int
 }
@@ -89,6 +92,8 @@ type scriptSub struct {
 	closes      int
 	started     bool
 	cancels     []context.CancelFunc
+	drain       int // the last `drain` messages are handed out by the first Close call
+	unsettled   int // drained messages that were not settled within the bound
 }
 
 func (s *scriptSub) Subscribe(ctx context.Context, topic string) (<-chan *message.Message, error) {
@@ -108,8 +113,7 @@ func (s *scriptSub) Subscribe(ctx context.Context, topic string) (<-chan *messag
 	s.mu.Unlock()
 	go func() {
 		defer close(s.done)
-		defer close(s.ch)
-		for _, m := range s.msgs {
+		for _, m := range s.msgs[:len(s.msgs)-s.drain] {
 			select {
 			case s.ch <- m:
 			case <-s.closing:
@@ -128,10 +132,32 @@ func (s *scriptSub) Close() error {
 	started := s.started
 	cancels := s.cancels
 	s.mu.Unlock()
-	s.once.Do(func() { close(s.closing) })
-	if started {
+	s.once.Do(func() {
+		close(s.closing)
+		if !started {
+			return
+		}
 		<-s.done
-	}
+		// graceful Close: what was already fetched is still handed out, one message at a time, each waiting to be
+		// settled; only then is the output channel closed
+		for _, m := range s.msgs[len(s.msgs)-s.drain:] {
+			select {
+			case s.ch <- m:
+			case <-time.After(drainWait()):
+				expired()
+				s.unsettled++
+				continue
+			}
+			select {
+			case <-m.Acked():
+			case <-m.Nacked():
+			case <-time.After(drainWait()):
+				expired()
+				s.unsettled++
+			}
+		}
+		close(s.ch)
+	})
 	for _, c := range cancels {
 		c()
 	}
@@ -160,8 +186,9 @@ func hasM(st []layerSpec) bool {
 }
 
 func runSub(c subCase) (string, string) {
+	drainN := strings.Count(c.script, "d") + strings.Count(c.script, "e")
 	inner := &scriptSub{subScript: c.subs, closeScript: c.closes, ch: make(chan *message.Message),
-		closing: make(chan struct{}), done: make(chan struct{})}
+		closing: make(chan struct{}), done: make(chan struct{}), drain: drainN}
 	idOf := map[*message.Message]int{}
 	for i := 0; i < c.n; i++ {
 		m := message.NewMessage("s"+wh.Itoa(i), []byte("p"))
@@ -311,9 +338,43 @@ func runSub(c subCase) (string, string) {
 		}
 	}
 	// Close, as often as the case says (a caller that retries a failed Close)
+	// a consumer that keeps reading until the channel is closed (as the Router does): it receives and settles what the
+	// wrapped subscriber hands out while its Close is draining
+	var drained []string
+	var drainedMsgs []*message.Message
+	drainDone := make(chan struct{})
+	if drainN > 0 && out != nil {
+		go func() {
+			defer close(drainDone)
+			for m := range out {
+				id, known := idOf[m]
+				same := "s"
+				if !known {
+					same, id = "c", 9999
+				}
+				if id < len(c.script) && c.script[id] == 'e' {
+					m.Nack()
+				} else {
+					m.Ack()
+				}
+				is := "-"
+				if id < len(inner.msgs) {
+					if closedCh(inner.msgs[id].Acked()) {
+						is = "a"
+					} else if closedCh(inner.msgs[id].Nacked()) {
+						is = "n"
+					}
+				}
+				drained = append(drained, wh.Itoa(id)+":"+wh.HexS(m.Metadata.Get("path"))+":"+same+":"+is)
+				drainedMsgs = append(drainedMsgs, m)
+			}
+		}()
+	} else {
+		close(drainDone)
+	}
 	var crs []string
 	for range c.closes {
-		r := guard(func() string { return errClass(sub.Close()) })
+		r := guardFor(time.Duration(2*drainN)*drainWait(), func() string { return errClass(sub.Close()) })
 		crs = append(crs, r)
 		if r == "stuck" {
 			break // a Close that hangs holds the decorator's locks: later calls would hang as well
@@ -324,7 +385,14 @@ func runSub(c subCase) (string, string) {
 	inner.mu.Unlock()
 	obs += "|close=" + strings.Join(crs, ",") + "/" + wh.Itoa(closes)
 	ch := "-"
-	if out != nil {
+	if drainN > 0 && out != nil {
+		select {
+		case <-drainDone:
+			ch = "closed"
+		case <-time.After(5 * time.Second):
+			ch = "open"
+		}
+	} else if out != nil {
 		select {
 		case _, ok := <-out:
 			if ok {
@@ -337,6 +405,12 @@ func runSub(c subCase) (string, string) {
 		}
 	}
 	obs += "|chan=" + ch
+	drainToks := []string{"consumer-still-reading"} // while it runs, what the consumer goroutine writes is not touched
+	if ch != "open" {
+		drainToks = drained
+		got = append(got, drainedMsgs...)
+	}
+	obs += "|drain=" + joinOr(drainToks, ",")
 	for _, m := range got {
 		m.Ack() // the messages left unsettled are acked now
 	}
@@ -344,7 +418,7 @@ func runSub(c subCase) (string, string) {
 	if withM {
 		expB = len(got)
 	}
-	how := quiesce(reg, expB, withM && c.reads < c.n && err == nil)
+	how := quiesce(reg, expB, withM && c.reads < c.n-drainN && err == nil)
 	bm, _ := gatherCounts(reg)
 	obs += "|B=" + bm
 	if how == "timeout" {
